@@ -56,6 +56,7 @@ pub fn main(a: &[String]) {
         "c05" => c05::drive,
         "c06" => c06::drive,
         "c07" => c07::drive,
+        "c07f" => c07::drive_tostring,
         "c08" => c08::drive,
         "c18r" => c08::drive_ym,
         "c09" => c09::drive,
